@@ -245,6 +245,16 @@ def report(prop, results, ledger, tier, seed, t_start, only_mode=False):
     missing = sorted(expected - got)
     missing_by_unsupported = [m for m in missing if m.split('/')[0].split('.', 1)[-1] in unsupported]
     hard_missing = [m for m in missing if m not in missing_by_unsupported]
+    # a loop that now runs under another (equally worded) invariant of its module keeps its obligations under that
+    # invariant's name: a missing `contract/loop:<invariant>.<rule>` is matched by a discharged
+    # `contract/loop:<other invariant>.<rule>` of the same contract and rule
+    def loop_key(oid):
+        c, _, clause = oid.partition('/')
+        if not clause.startswith('loop:') or '.' not in clause:
+            return None
+        return c, clause.split('.', 1)[1]
+    have = {loop_key(o['id']) for o in obligations if o['status'] == 'discharged' and loop_key(o['id'])}
+    hard_missing = [m for m in hard_missing if not (loop_key(m) and loop_key(m) in have)]
     # 1. failed / unknown obligations
     for o in obligations:
         if o['status'] == 'discharged':
@@ -333,6 +343,7 @@ def report(prop, results, ledger, tier, seed, t_start, only_mode=False):
             undecided.append({'contract': name, 'reason': why[:300]})
     # 3. native cross-check of every contract of this property on random concrete inputs
     xc = {'contracts': 0, 'inputs': 0, 'failures': 0, 'disagreements': []}
+    checker_error_native = None
     n_native = {'quick': 40, 'thorough': 1500}.get(tier, 40)
     reported = {l.split('replay=')[1].split()[0] for l in lines if 'replay=' in l}
     bymod = {}
@@ -407,6 +418,8 @@ def report(prop, results, ledger, tier, seed, t_start, only_mode=False):
         checker_error = 'zero obligations generated'
     if hard_missing:
         checker_error = f'obligations in ledger but not generated: {hard_missing[:5]}'
+    if checker_error_native and not checker_error:
+        checker_error = f'native cross-check harness failed: {checker_error_native}'
     covers = {r['name']: r['cover'] for r in results if r['cover']}
     ev = {
         'property_id': prop, 'tier': tier if tier in ('quick', 'thorough') else 'quick', 'seed': seed,
